@@ -58,6 +58,7 @@ def run(prop, tier, seed, replay=None):
                            checked="OnlyValid, OneBlockingPerPeer, NeverRemove" + (", Converges (FairSpec)" if "live" in cfg else "")))
     # 2. spec -> code: simulated behaviours of the model (1:1 scale: one page, everything decodable) replayed on real nodes
     results, scripts_by_id = [], {}
+    t_acc = t_rej = 0
     n_sim = 150 if quick else 1200
     for scn in (["join", "equal", "behind", "branches"]):
         cfg = "Sync.%s.gen.cfg" % scn
@@ -78,6 +79,17 @@ def run(prop, tier, seed, replay=None):
         results += rs
         for s in scripts:
             scripts_by_id[s["id"]] = s
+        # code -> spec: the recorded traces of these runs (up to the fair suffix) must be behaviours of Sync.tla
+        tr = [r["trace"] for r in rs if r.get("trace") and not r.get("error")]
+        tr = tr[: (60 if quick else 400)]
+        acc, rej = vlib.validate_traces("TraceSync", "Sync.trace.%s.cfg" % scn, tr, timeout=900)
+        t_acc += acc
+        t_rej += len(rej)
+        for x in rej[:2]:
+            rep.notes.append("DRIFT: %s trace %d rejected at event %s (%s)" % (scn, x["index"], json.dumps(x["event"])[:200], x["kind"]))
+        for x in rej:
+            if x["kind"].startswith("invariant:"):
+                rep.violation(dict(kind="trace-" + x["kind"]), dict(property=prop, trace=tr[x["index"]], rejected=x))
     # 3. code -> oracle at real scale: the simulator's own seeded scheduler on multi-page DAG pairs
     shapes = ["branches", "behind", "wide", "mixed"]
     big = []
@@ -141,7 +153,9 @@ def run(prop, tier, seed, replay=None):
         rep.inconclusive.append("reconciliation branches never exercised on the real code: %s" % missing)
     if ndrift > len(results):
         rep.notes.append("DRIFT: %d scripted steps had no counterpart on the real nodes" % ndrift)
-    cov = dict(states=states, transitions=transitions, traces_validated_against_impl=len(results),
+    if t_rej > max(3, (t_acc + t_rej) // 5) and not rep.violations:
+        rep.inconclusive.append("%d of %d recorded traces are not behaviours of Sync.tla (spec/code drift)" % (t_rej, t_acc + t_rej))
+    cov = dict(states=states, transitions=transitions, traces_validated_against_impl=t_acc + t_rej, traces_accepted=t_acc, traces_rejected=t_rej,
                samples=samples or [next(iter(scripts_by_id.values()))],
                models=models, behaviours_replayed_on_real_code=len(results), big_dag_runs=len(big),
                real_handler_invocations=delivered, real_messages_by_kind=kinds, reconciliation_branches_taken=paths, drift_steps=ndrift, inconclusive_scripts=ninc,
@@ -150,7 +164,7 @@ def run(prop, tier, seed, replay=None):
                     "simulated model behaviours are replayed 1:1 on two real v2 protocol instances over real dag.States (every envelope captured at "
                     "Connection.Send, handlers called synchronously), and seeded random schedules with loss/duplication/reordering/premature time-outs/"
                     "forged responses run on multi-page DAG pairs; after every step no node may have lost or admitted an invalid/orphan transaction; "
-                    "after the fair suffix all nodes must hold the union with equal XOR")
+                    "after the fair suffix all nodes must hold the union with equal XOR; the recorded traces of the 1:1 replays (one event per simulator step and per envelope sent, digests abstracted to the set they digest) are validated by TLC against TraceSync.tla")
     vlib.write_evidence(prop, tier, seed, "model_checking", cov, time.time() - t0, len(rep.violations),
                         ["handlers of one node run one at a time (races between handlers are covered at the dag.State level, C06/C08)",
                          "multi-message TransactionLists arrive in order in the liveness configs (gRPC streams are FIFO)",
